@@ -68,6 +68,11 @@ def obligations(ctx):
                       "cplx_to_tnx32_avx2_fma", timeout=1200))
     for (m, avx) in ((8, 1), (8, 0), (4, 1)):
         obs.append(ob("cplx_to_tnx32/init/m=%d/avx=%d" % (m, avx), "h_cplx_to_tnx32", {"M": m, "AVX": avx, "DIVLOG": 2}, "cplx_to_tnx32 via init", timeout=1200))
+    # the conversions reached through their caching *_simple entry points: after calls with other dimensions, divisors and bounds / overheads the
+    # result is that of a freshly initialised table for the arguments of the call (shared harness and analysis with C15)
+    from vf.props import c15
+    obs += [o for o in c15.history_obs(ctx) if any(x in o.name for x in ("reim_to_znx64_simple", "reim_from_znx64_simple", "cplx_to_tnx32_simple", "cplx_from_znx32_simple", "cplx_from_tnx32_simple"))
+            and ("/avx=1" in o.name or "same-dim" in o.name)]
     return obs
 
 
